@@ -468,6 +468,14 @@ func (v *Verifier) runPartition(pkg *ssa.Package, fn *ssa.Function, c *Contract,
 	F.Distribute = c.Layer == "" || c.Options["distribute"] != ""
 	v.preamble = ""
 	v.noMerge = c.Options["nomerge"] != ""
+	v.opaqueCalls = c.Options["opaque-calls"] != ""
+	v.pureCalls = map[string]bool{}
+	for _, n := range strings.Split(c.Options["pure"], ",") {
+		if n = strings.TrimSpace(n); n != "" {
+			v.pureCalls[n] = true
+			v.assume("callee " + n + " is declared pure in the contract of " + c.Func + ": a deterministic function of its argument values that writes nothing")
+		}
+	}
 	v.strictSliceLen = c.Options["strict-slice-len"] != ""
 	v.smtFuncs = map[string]*Sort{}
 	if len(c.SMT) > 0 {
